@@ -100,7 +100,7 @@ SetBar(S, b, rec) == [S EXCEPT !.bars[b] = rec]
 (* Is bar b attached to a target without refresh rate?  Then nothing may skip a draw it requests. *)
 Unlimited(S, b) == b \in S.ids /\ (IF S.bars[b].inmp THEN S.unlim ELSE S.bars[b].unlim)
 (* operations that request a redraw of their bar (Apply: Req) *)
-RequestOps == {"tick", "burst", "inc", "dec", "set_position", "set_length", "unset_length", "inc_length", "dec_length", "set_message", "set_prefix", "reset"}
+RequestOps == {"tick", "burst", "inc", "dec", "set_position", "seek_to", "set_length", "unset_length", "inc_length", "dec_length", "set_message", "set_prefix", "reset"}
 
 (* A draw request by bar b: its pending rendering becomes the rendering of *)
 (* its current state.                                                      *)
@@ -168,7 +168,7 @@ Apply(S, r) ==
       [] r.op \in {"tick", "burst"} -> Plain(Req(S, b))     \* burst = n ticks at one instant
       [] r.op = "inc"           -> Plain(Req(SetBar(S, b, [B EXCEPT !.pos = B.pos + r.n]), b))
       [] r.op = "dec"           -> Plain(Req(SetBar(S, b, [B EXCEPT !.pos = B.pos - r.n]), b))
-      [] r.op = "set_position"  -> Plain(Req(SetBar(S, b, [B EXCEPT !.pos = r.n]), b))
+      [] r.op \in {"set_position", "seek_to"} -> Plain(Req(SetBar(S, b, [B EXCEPT !.pos = r.n]), b))     \* seek_to: a seek through the Seek adaptor sets the position to the new offset
       [] r.op = "set_length"    -> Plain(Req(SetBar(S, b, [B EXCEPT !.len = r.n]), b))
       [] r.op = "unset_length"  -> Plain(Req(SetBar(S, b, [B EXCEPT !.len = NoLen]), b))
       [] r.op = "inc_length"    -> Plain(Req(SetBar(S, b, [B EXCEPT !.len = IF B.len = NoLen THEN NoLen ELSE B.len + r.n]), b))
